@@ -31,6 +31,8 @@ KIND = {
 }
 
 INERT = ("id", "cls", "item_number", "component_number")
+# `Model.__setattr__` labels whatever it is given, also plain instances of fixed components
+INST_INERT = INERT + ("label",)
 
 
 def prior_node(p):
@@ -232,7 +234,7 @@ def inst_of(x):
         return {
             "k": "obj",
             "cls": type(x).__name__,
-            "attrs": [[k, inst_of(v)] for k, v in x.__dict__.items() if isinstance(k, str) and not k.startswith("_") and k not in INERT],
+            "attrs": [[k, inst_of(v)] for k, v in x.__dict__.items() if isinstance(k, str) and not k.startswith("_") and k not in INST_INERT],
         }
     return {"k": "opaque", "tag": f"py:{type(x).__name__}"}
 
